@@ -154,6 +154,46 @@ fn check_entry(bytes: &[u8], idx: usize, name: &str, pw: &[u8], content: &[u8], 
         Attempt::Clean(c) if c == content => {}
         other => bad("by_name_decrypt", format!("by_name_decrypt gives {}", short(&other)), st),
     }
+    // one archive handle, the same entry opened again and again (by index, by name, by index; a refused open without a
+    // password and one with a wrong password in between; through a clone too): every open with the right password
+    // yields the content
+    {
+        st.evals += 1;
+        let r = guard(|| -> Result<(), String> {
+            let mut ar = zip::ZipArchive::new(Cursor::new(bytes)).map_err(|e| format!("open: {e}"))?;
+            let mut read_ok = |ar: &mut zip::ZipArchive<Cursor<&[u8]>>, how: u8, step: usize| -> Result<(), String> {
+                let f = match how {
+                    0 => ar.by_index_decrypt(idx, pw),
+                    _ => ar.by_name_decrypt(name, pw),
+                };
+                let mut f = match f {
+                    Ok(Ok(f)) => f,
+                    Ok(Err(_)) => return Err(format!("open #{step} ({}) with the right password: InvalidPassword", if how == 0 { "by index" } else { "by name" })),
+                    Err(e) => return Err(format!("open #{step} with the right password: {e}")),
+                };
+                let mut v = vec![];
+                f.read_to_end(&mut v).map_err(|e| format!("read after open #{step}: {e}"))?;
+                if v != content {
+                    return Err(format!("open #{step}: {} bytes that differ from the {} written", v.len(), content.len()));
+                }
+                Ok(())
+            };
+            read_ok(&mut ar, 0, 1)?;
+            read_ok(&mut ar, 1, 2)?;
+            let _ = ar.by_index(idx).map(|_| ());
+            let _ = ar.by_index_decrypt(idx, b"certainly not the password").map(|_| ());
+            read_ok(&mut ar, 0, 3)?;
+            let mut other = ar.clone();
+            read_ok(&mut other, 1, 4)?;
+            read_ok(&mut ar, 1, 5)?;
+            Ok(())
+        });
+        match r {
+            Ok(Ok(())) => st.class("right-password:content(repeated opens on one handle)"),
+            Ok(Err(e)) => bad("right-password-fails/repeated-opens", format!("repeated opens of the entry on one archive handle: {e}"), st),
+            Err(p) => bad(&format!("panic/{}", panic_site(&p)), format!("panicked: {p}"), st),
+        }
+    }
     for by_name in [None, Some(name)] {
         st.evals += 1;
         match attempt(bytes, idx, None, 0, by_name) {
